@@ -12,10 +12,10 @@ Definition show_res (r: res) : list N :=
   match r with RPacket p => 0 :: show_packet p | RErr e => [1; lerr_code e] | RNone => [2] | RPanic => [3] | RHang => [4] | ROutOfFuel => [5] end.
 Definition bad_res (r: res) : bool := match r with RPanic | RHang | ROutOfFuel => true | _ => false end.
 (* the harness stops a case at the first panic / hang *)
-Fixpoint cut (l: list (res * nat)) : list (res * nat) :=
+Fixpoint cut (l: list (res * N)) : list (res * N) :=
   match l with [] => [] | (r, n) :: t => if bad_res r then [(r, n)] else (r, n) :: cut t end.
-Definition show_poll (rn: res * nat) : list N := let v := show_res (fst rn) ++ [N.of_nat (snd rn); 0; 0] in nlen v :: v.
-Definition show_polls (l: list (res * nat)) : list N := nlen l :: concat (map show_poll l).
+Definition show_poll (rn: res * N) : list N := let v := show_res (fst rn) ++ [snd rn; 0; 0] in nlen v :: v.
+Definition show_polls (l: list (res * N)) : list N := nlen l :: concat (map show_poll l).
 
 (* ---------- device scripts ---------- *)
 Definition utok_of (x: N) : utok := if x <? 256 then UB x else if x =? 256 then UWB else UErr.
@@ -30,9 +30,9 @@ Fixpoint ctoks_go (fuel: nat) (l: list N) : option (list ctok) :=
     end end.
 Definition ctoks_of (l: list N) := ctoks_go (S (length l)) l.
 
-Definition run_polls (M: machine) (s: list (tok M)) : list (res * nat) := cut (fst (polls M (S (S (length s))) None s)).
+Definition run_polls (M: machine) (s: list (tok M)) : list (res * N) := cut (fst (polls M (S (S (length s))) None s)).
 
-Definition run_link_tokens (link: N) (toks: list N) : option (list (res * nat)) :=
+Definition run_link_tokens (link: N) (toks: list N) : option (list (res * N)) :=
   match link with
   | 0 => option_map (run_polls can) (ctoks_of toks)
   | 1 => Some (run_polls usart (map utok_of toks))
@@ -162,7 +162,7 @@ Definition intr_frame (w: list N) : list stok :=
   | d :: l :: r => SB d :: SINT :: SB l :: map SB r
   | _ => map SB w
   end.
-Definition lnk_run (link: N) (gaps: list N) (ps: list packet) (fl: N) : option (list (res * nat) * list N) :=
+Definition lnk_run (link: N) (gaps: list N) (ps: list packet) (fl: N) : option (list (res * N) * list N) :=
   match frames_of_packets ps with
   | Val fss =>
       match link with
